@@ -16,8 +16,8 @@ Parametricity Recursive second_order_from_eig.
 Definition F2_enclosure_B :=
   second_order_from_eig_R PB.M.I.type R PB.TR (option bool) bool PB.BR IOB RO IOB_RO.
 (* the observable of the correspondence check is this function *)
-Example model_F2_is : forall d thr evs Vs om bs ns nc dts,
-  model_F2 IOB d thr evs Vs om bs ns nc dts = second_order_from_eig IOB d thr evs Vs om bs ns nc dts.
+Example model_F2_is : forall d thr thr2 evs Vs om bs ns nc dts,
+  model_F2 IOB d thr thr2 evs Vs om bs ns nc dts = second_order_from_eig IOB d thr thr2 evs Vs om bs ns nc dts.
 Proof. reflexivity. Qed.
 Definition soi_enclosure_B :=
   soi_entry_R PB.M.I.type R PB.TR (option bool) bool PB.BR IOB RO IOB_RO.
